@@ -14,27 +14,34 @@ pub fn gen(seed: u64, cases: usize, flavour: &str, path: &str) {
         g.line("RESET");
         g.stats.bump("cases");
         for _ in 0..20 {
-            let nc = g.rng.below(7);
+            // one line in fifteen leaves the ordinary regime: a long cost list (past 16, 32 entries), or everything
+            // (fees, budget, price) scaled far from 1
+            let stress = if g.rng.chance(1, 15) { 1 + g.rng.below(2) } else { 0 };
+            g.stats.bump(match stress { 1 => "stress_long_cost_list", 2 => "stress_magnitudes", _ => "ordinary_regime" });
+            let mag: f64 = if stress == 2 { *g.rng.pick(&[1e-9, 1e-10, 1e9, 1.0 / 1073741824.0, 1099511627776.0]) } else { 1.0 };
+            let nc = if stress == 1 { *g.rng.pick(&[16u64, 17, 18, 33, 40]) } else { g.rng.below(7) };
+            let small = stress == 1; // many entries: keep each one small so that something is left to trade with
             let mut cl = String::new();
             let mut pct_sum = 0.0;
             for _ in 0..nc {
                 match g.rng.below(3) {
-                    0 => cl += &format!(" P {}", fb(if wide { g.rng.unit() * 2.0 } else { *g.rng.pick(&[0.0, 0.25, 0.5, 0.01]) })),
+                    0 => cl += &format!(" P {}", fb(mag * if small { *g.rng.pick(&[0.0, 0.01, 0.5]) } else if wide { g.rng.unit() * 2.0 } else { *g.rng.pick(&[0.0, 0.25, 0.5, 0.01]) })),
                     1 => {
-                        let mut p = if wide { g.rng.unit() * 0.3 } else { *g.rng.pick(&[0.0, 0.125, 0.01, 0.25]) };
+                        let mut p = if small { *g.rng.pick(&[0.0, 0.001, 0.01]) } else if wide { g.rng.unit() * 0.3 } else { *g.rng.pick(&[0.0, 0.125, 0.01, 0.25]) };
                         if pct_sum + p >= 0.99 {
                             p = 0.0;
                         }
                         pct_sum += p;
                         cl += &format!(" C {}", fb(p));
                     }
-                    _ => cl += &format!(" F {}", fb(if wide { g.rng.unit() * 50.0 } else { *g.rng.pick(&[0.0, 1.0, 10.0, 2500.0]) })),
+                    _ => cl += &format!(" F {}", fb(mag * if small { *g.rng.pick(&[0.0, 1.0, 10.0]) } else if wide { g.rng.unit() * 50.0 } else { *g.rng.pick(&[0.0, 1.0, 10.0, 2500.0]) })),
                 }
             }
             g.stats.bump(&format!("cost_list_len_{nc}"));
             let budget = if wide { g.rng.unit() * 100000.0 } else { *g.rng.pick(&[0.0, 5.0, 10.0, 100.0, 1000.0, 12345.5, 100000.0]) };
             let price = if wide { 0.01 + g.rng.unit() * 500.0 } else { (g.rng.below(400) + 1) as f64 * 0.25 };
             let is_buy = g.rng.chance(2, 3);
+            let (budget, price) = (budget * mag, price * mag);
             g.line(&format!("COST {nc}{cl} ; {} {} {}", fb(budget), fb(price), if is_buy { 1 } else { 0 }));
         }
     }
